@@ -166,6 +166,55 @@ Theorem C10_substep_safe :
     (forall e, In e (snd (run_days a delta steps fuel z c)) -> snd (fst e) = 1).
 Proof. exact c10_substep_safe. Qed.
 
+(* ---- organic fertiliser of automatic management and the crop-skip branch (nitro.go:73-107, 458-528) ---- *)
+
+(* payload_org: in one automatic-fertilisation call the fast/slow organic pools of the top layer receive exactly the
+   split of the fertiliser of the previous entry when its date (harvest + ORGDOY) is today, and of the current entry
+   when its date (sowing + ORGDOY) is today; the after-sowing variant adds its direct N to C1[0] (floored at 0) *)
+Theorem C10_payload_org :
+  forall (e : af_env R) (s : af_state R),
+  let s' := fst (autofert_day e s) in
+  as_nfos0 s' = (as_nfos0 s + (if orgh_fires e then o_nsas (ae_pay_prev e) else 0)
+                            + (if orgs_fires e s then o_nsas (ae_pay_cur e) else 0))%R /\
+  as_naos0 s' = (as_naos0 s + (if orgh_fires e then o_nlas (ae_pay_prev e) else 0)
+                            + (if orgs_fires e s then o_nlas (ae_pay_cur e) else 0))%R /\
+  as_c10 s' = (if orgs_fires e s then Rmax 0 (as_c10 s + o_ndir (ae_pay_cur e)) else as_c10 s).
+Proof. exact autofert_org_payload. Qed.
+
+(* ... the split is the table split of the quantity given in the automan row (no fertilisation factor) *)
+Theorem C10_payload_org_amounts :
+  forall (tab : list (frow R)) (q : R) (name : String.string),
+  ((forall r, In r tab -> String.eqb (f_name r) name = false) /\ dueng tab name q fpay0 = fpay0)
+  \/
+  exists r, In r tab /\ String.eqb (f_name r) name = true /\
+    let gross := (q * f_ntot r * f_ndir r)%R in
+    let p := dueng tab name q fpay0 in
+    p_ndir p = (gross * (1 - f_nh4 r * f_loss r))%R /\
+    p_nh4n p = (gross * f_nh4 r * (1 - f_loss r))%R /\
+    p_nsas p = ((q * f_ntot r - p_ndir p) * f_nfst r)%R /\
+    p_nlas p = ((q * f_ntot r - p_ndir p) * f_nslo r)%R.
+Proof. exact c10_dueng_amounts. Qed.
+
+(* exact_once / on_time for the after-harvest variant: with the harvest on day h and ORGDOY = d the date is h + d;
+   over the [fuel] days after the harvest (while the next entry is current) it is due exactly once, on h + d, iff
+   1 <= d <= fuel — with d = 0 the date is the harvest day itself, already past when the test is first made, and the
+   fertiliser is never applied *)
+Theorem C10_org_after_harvest_once :
+  forall (h d : Z) (fuel : nat),
+  orgh_days (h + d) fuel (h + 1) = if (1 <=? d) && (d <=? Z.of_nat fuel) then [h + d] else [].
+Proof. exact orgh_exactly_once. Qed.
+
+(* the crop-skip branch: at the harvest of entry k the cursor passes over entry k+1 exactly when that entry's sowing
+   window has already ended, automatic sowing is on and entry k carries organic fertiliser "H"; ZTDG[k] = harvest day +
+   ORGDOY[k] in either case *)
+Theorem C10_crop_skip :
+  forall (z k : Z) (org_h : Z -> bool) (orgdoy saat2 : Z -> Z) (automan : bool) (zt : Z),
+  let '(k', zt', skipped) := harvest_cursor z k org_h orgdoy saat2 automan zt in
+  zt' = (if org_h k then z + orgdoy k else zt) /\
+  (skipped = true <-> (saat2 (k + 1) <= z /\ automan = true /\ org_h k = true)) /\
+  k' = (if skipped then k + 2 else k + 1).
+Proof. exact harvest_cursor_rule. Qed.
+
 (* regression examples (the former refutation witnesses, now carried out) *)
 Example C10_two_on_start_day_fire :
   fert_fired (rd_date (fert_read tt 100 tt (mk_lines [100; 100; 150]))) one_step 100 400
@@ -212,3 +261,7 @@ Print Assumptions C10_payload_fert.
 Print Assumptions C10_payload_amounts.
 Print Assumptions C10_payload_irr.
 Print Assumptions C10_substep_safe.
+Print Assumptions C10_payload_org.
+Print Assumptions C10_payload_org_amounts.
+Print Assumptions C10_org_after_harvest_once.
+Print Assumptions C10_crop_skip.
